@@ -325,4 +325,7 @@ def check(ctx) -> Result:
         rf_cache.f3_result_fields(ctx, res, ci_, ci_.methods["process"])
     n = rc_owner.c1_fields(ctx, res, [PTc])
     res.floor("held base circuit", n, 1)
+    from ..rules import rz_falsy
+    nz = rz_falsy.none_checks(ctx, res, "C16", ())
+    res.floor("Z functions scanned", nz, 3)
     return res
